@@ -255,14 +255,14 @@ func (p *c24scan) exponent() (int64, bool) {
 
 // numberFlags say which forms a context allows.
 type c24NumCtx struct {
-	neg        bool // NEG? allowed
-	prefixed   bool // 0b / 0o / 0x integer prefixes allowed
-	binOct     bool // (with prefixed) 0b and 0o allowed, not just 0x
-	dec        bool // decimal digits allowed
-	bare       int  // >0: un-prefixed digits of this base (explicit-base array modes)
-	float      bool // fraction / exponent allowed
-	mustFloat  bool // fraction or exponent required (scalar FLOAT_*), used together with intOK
-	specials   bool // inf / nan / snan
+	neg       bool // NEG? allowed
+	prefixed  bool // 0b / 0o / 0x integer prefixes allowed
+	binOct    bool // (with prefixed) 0b and 0o allowed, not just 0x
+	dec       bool // decimal digits allowed
+	bare      int  // >0: un-prefixed digits of this base (explicit-base array modes)
+	float     bool // fraction / exponent allowed
+	mustFloat bool // fraction or exponent required (scalar FLOAT_*), used together with intOK
+	specials  bool // inf / nan / snan
 }
 
 // c24Number evaluates text as exactly one numeric token of the context.
@@ -605,15 +605,15 @@ func c24IsSentinelChar(r rune) bool {
 
 // c24StrFeatures records which escape forms a string literal used (filled by c24EvalString).
 type c24StrFeatures struct {
-	Named        map[byte]int
-	Codepoints   int
-	Continuation int
-	Verbatim     int
-	VerbatimEmpty         int
-	VerbatimNonASCII      int // sentinel has a non-ASCII character
-	VerbatimPrefix        int // non-empty contents that are a proper prefix of the sentinel
-	EmptyAfterVerbatim    int // an empty verbatim sequence after an earlier verbatim sequence
-	Raw          int
+	Named              map[byte]int
+	Codepoints         int
+	Continuation       int
+	Verbatim           int
+	VerbatimEmpty      int
+	VerbatimNonASCII   int // sentinel has a non-ASCII character
+	VerbatimPrefix     int // non-empty contents that are a proper prefix of the sentinel
+	EmptyAfterVerbatim int // an empty verbatim sequence after an earlier verbatim sequence
+	Raw                int
 }
 
 // c24EvalString evaluates a quoted string literal (including both quotes).
